@@ -309,6 +309,28 @@ BitOrMag(a, b) == \* magnitudes as byte strings
     LET w == Max(Len(a), Len(b))  pa == PadLeft(a, w)  pb == PadLeft(b, w)
     IN [i \in 1..w |-> BitsByte([j \in 1..8 |-> IF ByteBits(pa[i])[j] = 1 \/ ByteBits(pb[i])[j] = 1 THEN 1 ELSE 0])]
 
+\* Construct._actualsize: the size of a member found at the stream position, without parsing it where possible.  Prefixed and
+\* PrefixedArray read their length / count field (below the recorded boundary); every other class answers with its sizeof.
+\* Result: v = native size, s = the stream afterwards.
+ActualSz(m, s, c) ==
+    IF m.k = "Prefixed" THEN
+        Then(STell(s, c), LAMBDA p1 :
+        LET L0 == P(m.lenf, p1.s, p1.c)  L == [L0 EXCEPT !.ev = <<>>] IN
+        Then(L, LAMBDA l :
+            IF ~IsIntLike(l.v) THEN RErr(IF l.v.t = "opaque" THEN OutOfModel ELSE "TypeError", l.s, l.c, <<>>)
+            ELSE LET z0 == IF m.incl THEN ZIn(m.lenf, l.s, l.c) ELSE ROk(0, l.s, l.c, <<>>)  z == [z0 EXCEPT !.ev = <<>>] IN
+                 Then(z, LAMBDA zz :
+                 Then(STell(zz.s, zz.c), LAMBDA p2 : ROk((p2.v - p1.v) + AsInt(ToIntV(l.v)) - zz.v, p2.s, p2.c, <<>>)))))
+    ELSE IF m.k = "PrefixedArray" THEN
+        Then(STell(s, c), LAMBDA p1 :
+        LET L0 == P(m.cf, p1.s, p1.c)  L == [L0 EXCEPT !.ev = <<>>] IN
+        Then(L, LAMBDA l :
+            IF ~IsIntLike(l.v) THEN RErr(IF l.v.t = "opaque" THEN OutOfModel ELSE "TypeError", l.s, l.c, <<>>)
+            ELSE LET z0 == ZIn(m.sub, l.s, l.c)  z == [z0 EXCEPT !.ev = <<>>] IN
+                 Then(z, LAMBDA zz :
+                 Then(STell(zz.s, zz.c), LAMBDA p2 : ROk((p2.v - p1.v) + AsInt(ToIntV(l.v)) * zz.v, p2.s, p2.c, <<>>)))))
+    ELSE ZIn(m, s, c)
+
 PB(n, s, c) ==
     CASE n.k = "Bytes" ->
             Then(IntParam(n.len, s, c), LAMBDA L : SRead(L.s, L.c, L.v))
@@ -460,6 +482,10 @@ PB(n, s, c) ==
             LET d == RawRead(s, 1) IN
             IF ~d.ok THEN RErr("StreamError", d.s, c, <<>>)
             ELSE IF d.v # <<>> THEN RErr("TerminatedError", d.s, c, <<>>) ELSE ROk(VNone, d.s, c, <<>>)
+      [] n.k = "Lazy" ->     \* remembers the offset, skips the member by its size (Construct._actualsize) and returns a thunk
+            Then(STell(s, c), LAMBDA o :
+            Then(ActualSz(n.sub, o.s, o.c), LAMBDA a :
+            Then(SSeek(a.s, a.c, o.v + a.v, 0), LAMBDA k : ROk([t |-> "opaque", r |-> "function"], k.s, k.c, <<>>))))
       [] n.k = "RawCopy" ->
             Then(STell(s, c), LAMBDA o1 :
                 Then(P(n.sub, o1.s, o1.c), LAMBDA r :
@@ -879,6 +905,7 @@ BB(n, obj, s, c) ==
             Then(IntParam(n.at, s, c), LAMBDA at :
                 Then(IntParam(n.whence, at.s, at.c), LAMBDA wh : SSeek(wh.s, wh.c, at.v, wh.v)))
       [] n.k = "Tell" -> Then(STell(s, c), LAMBDA t : ROk(VInt(t.v), t.s, t.c, <<>>))
+      [] n.k = "Lazy" -> B(n.sub, obj, s, c)
       [] n.k = "RawCopy" ->
             LET o == IF obj.t = "none" /\ FBN(n.sub) THEN VDict(<<"value">>, <<VNone>>) ELSE obj IN
             IF o.t # "dict" THEN RErr(TypeErrOr(o), s, c, <<>>)
